@@ -290,6 +290,20 @@ def gotran_to_myokit(ode: ODE, time_component="engine", time_unit="s") -> myokit
             var.set_unit(to_myokit_unit(intermediate.unit_str))
             global_var_map[sp.Symbol(intermediate.name)] = sp.Symbol(var.qname())
 
+    # The symbols in the expressions of a model loaded from an .ode file carry
+    # assumptions, so they have to be matched by name
+    var_map_by_name = {symbol.name: qname for symbol, qname in global_var_map.items()}
+    var_map_by_name["t"] = var_map_by_name["time"]
+
+    def to_qnames(expr: sp.Expr) -> sp.Expr:
+        return expr.xreplace(
+            {
+                symbol: var_map_by_name[symbol.name]
+                for symbol in expr.free_symbols
+                if symbol.name in var_map_by_name
+            }
+        )
+
     sympy_reader = myokit.formats.sympy.SymPyExpressionReader(model=model)
     # Then we can add expressions
     for component in ode.components:
@@ -299,14 +313,14 @@ def gotran_to_myokit(ode: ODE, time_component="engine", time_unit="s") -> myokit
             state = state_derivative.state
             v = comp[state.name]
 
-            expr = state_derivative.expr.xreplace(global_var_map)
+            expr = to_qnames(state_derivative.expr)
             expr = sympy_reader.ex(expr)
             v.set_rhs(expr)
             v.promote(state.value)
 
         for intermediate in component.intermediates:
             v = comp[intermediate.name]
-            expr = intermediate.expr.xreplace(global_var_map)
+            expr = to_qnames(intermediate.expr)
             expr = sympy_reader.ex(expr)
             v.set_rhs(expr)
 
